@@ -16,6 +16,7 @@ INVARIANT InvC08_repeat
 INVARIANT InvC08_split
 INVARIANT InvC08_monitors
 INVARIANT InvC08_counters
+INVARIANT ExportHist
 PROPERTY MainAdvancesByDt
 PROPERTY NitCountsMainSteps
 PROPERTY CallerFieldUntouched
